@@ -448,13 +448,14 @@ def families(run: Run):
     """(name, iterator of (family, tree))"""
     if not run.thorough:
         yield "depth1 widths{1,2,3} incl. mixed widths", G.depth1((1, 2, 3), mixed=True)
-        yield "depth1 with typed constant operands, widths{1,2,3}", G.depth1_const((1, 2, 3), mixed=True)
+        yield "depth1 with typed constant operands, widths{1,2,3}", G.depth1_const(
+            (1, 2, 3), mixed=True, mixed_only=("cat", "eq", "bitwise", "boolop", "ifexp", "select"))
         yield "nested constant slice/index chains (length 1..3)", G.slice_chains(quick=True)
-        yield "conversions by assignment/construction, widths{1,2,3}", G.conversions((1, 2, 3))
-        # beyond the complete bound: a seed-chosen 1/50 stratum of the depth-2 family
-        pick = run.seed % 50
-        yield f"depth2 widths{{1,2}} stratum {pick}/50 (seed-chosen)", (
-            ft for n, ft in enumerate(G.depth2((1, 2))) if n % 50 == pick)
+        yield "conversions by assignment/construction, widths{1,2,3}", G.conversions((1, 2, 3), operand_src_widths=(1, 2))
+        # beyond the complete bound: a seed-chosen 1/150 stratum of the depth-2 family
+        pick = run.seed % 150
+        yield f"depth2 widths{{1,2}} stratum {pick}/150 (seed-chosen)", (
+            ft for n, ft in enumerate(G.depth2((1, 2))) if n % 150 == pick)
     else:
         yield "depth1 widths{1..4} incl. mixed widths", G.depth1((1, 2, 3, 4), mixed=True)
         yield "depth1 with typed constant operands, widths{1..4}", G.depth1_const((1, 2, 3, 4), mixed=True)
@@ -517,15 +518,18 @@ def main(run: Run):
     all_counts = collections.Counter()
     total = 0
     only = getattr(run, "only", None)  # debug: --only fam1,fam2 restricts the families (never used for verdicts)
+    everything = []
     for label, it in families(run):
         trees = [(f, t) for f, t in it if not only or f in only]
         total += len(trees)
         run.count("expressions_generated", len(trees))
-        fc, rej = run_trees(run, trees, label)
-        all_counts.update(fc)
         run.note(f"{label}: {len(trees)} expressions")
-        for k, v in list(rej.items())[:12]:
-            run.note(f"rejected e.g. {v}: {k}")
+        everything += trees
+    # one pool for all families (no idle tail between families)
+    fc, rej = run_trees(run, everything)
+    all_counts.update(fc)
+    for k, v in list(rej.items())[:12]:
+        run.note(f"rejected e.g. {v}: {k}")
     fams = sorted({f for f, _ in all_counts})
     run.coverage_extra["per_family"] = {f: {st: all_counts[(f, st)] for st in ("ok", "violation", "rejected", "skipped")
                                             if all_counts[(f, st)]} for f in fams}
